@@ -225,6 +225,15 @@ def gen_relay(work, tier, seed):
             steps = session(token)[:4]
             scripts.append({"id": "y%05d" % len(scripts), "origin": "relay:%d" % si, "cfg": base_cfg(token), "transport": tr,
                             "tun": dict(H_A, user="user1" if token else "nuser1"), "steps": steps, "actions": acts})
+    # several data packets in one transport write (coalesced): the payloads must arrive concatenated
+    for tr in ("ws", "legacy"):
+        for k in range(10 if tier == "quick" else 80):
+            nb = rng.choice([2, 2, 3, 4, 6])
+            sizes = [rng.choice([1, 2, 9, 100, 300, 1000, 4085, 4086] if tr == "ws" else [1, 2, 9, 100, 300, 700]) for _ in range(nb)]
+            acts = [{"a": "cs", "decl": 50, "carr": 50}, {"a": "burst", "sizes": sizes}, {"a": "bs", "n": 200}, {"a": "burst", "sizes": sizes[::-1]}, {"a": "cs", "decl": 7, "carr": 7}]
+            token = k % 2 == 0
+            scripts.append({"id": "y%05d" % len(scripts), "origin": "burst:%d" % nb, "cfg": base_cfg(token), "transport": tr,
+                            "tun": dict(H_A, user="user1" if token else "nuser1"), "steps": session(token)[:4], "actions": acts})
     # size ladder: every size class alone in each direction
     for tr in ("ws", "legacy"):
         for n in SIZES + ([3 << 20] if tier == "thorough" else []):
